@@ -333,13 +333,28 @@ def promoted_value(P, key):
     return None
 
 
-def assoc_enum_guard(P, guards, assoc_path, adt):
+def assoc_enum_guard(P, guards, assoc_path, adt, key=None, depth=0):
     """The variant of the fieldless enum `adt` that the associated constant `assoc_path` is known to equal under `guards`
-    (a `match` on it, or an `==` / `!=` against a constant variant); None if the guards do not decide it."""
+    (a `match` on it, an `==` / `!=` against a constant variant, or a `matches!` whose boolean result is branched on); None if undecided."""
     names = {d: n for n, d in P.enum_variants(adt)}
     for d, taken, _ in guards:
+        if key is not None and depth < 2 and d[0] == "place" and d[2] == () and isinstance(d[1], str) and d[1].startswith("_") and d[1][1:].isdigit():
+            # a compiler temporary holding the result of `matches!(CONST, Variant)`: look at the blocks that store the taken truth value
+            body = P.body(key)
+            truth = taken != 0
+            for kind, bi, s in local_defs(body, int(d[1][1:])):
+                if kind == "stmt" and s["r"].get("k") == "use" and s["r"]["o"].get("k") == "const":
+                    c = s["r"]["o"].get("c") or {}
+                    if "int" in c and bool(int(c["int"])) == truth:
+                        r = assoc_enum_guard(P, guards_of(P, key, bi), assoc_path, adt, key, depth + 1)
+                        if r is not None:
+                            return r
         if d == ("discr", ("uneval", assoc_path)) and isinstance(taken, int):
             return names.get(taken)
+        if d == ("discr", ("uneval", assoc_path)) and isinstance(taken, tuple) and taken and taken[0] == "otherwise":
+            rest = [n for v_, n in names.items() if v_ not in taken[1]]
+            if len(rest) == 1:
+                return rest[0]
         if d[0] == "call" and d[1].endswith("core::cmp::PartialEq>::eq") or d[0] == "call" and d[1].endswith("core::cmp::PartialEq>::ne"):
             vals = []
             for a in d[2]:
